@@ -82,6 +82,33 @@ class Harness:
         os.makedirs(self.T)
         os.makedirs(self.E)
         self.repo = ebd.open_repo(self.root)
+        self.stale_probes = []
+        # contract on the liveness probe: whenever it answers False although a line WAS read, Python took
+        # some other request's reply (or residue) for the answer to 'alive'
+        if not getattr(processor.EbuildProcessor, "_vt_probe_wrapped", False):
+            orig_prop = processor.EbuildProcessor.is_responsive
+            harness = self
+
+            def probed(self_):
+                tr = ebd.trace_of(self_) if getattr(self_, "ebd_write", None) is not None else None
+                mark = len(tr.events) if tr is not None else 0
+                n_out = len(getattr(self_, "_outstanding_expects", ()) or ())
+                res = orig_prop.fget(self_)
+                ctx.count("contract_is_responsive_calls")
+                if not res and tr is not None:
+                    # replies of batched expectations still outstanding come first; the probe's own reply is read after them
+                    reads = [p for _, _, k, p in tr.events[mark:] if k == "R"][n_out:]
+                    if reads and reads[0] not in (b"", "") :
+                        line = reads[0].decode("utf-8", "replace") if isinstance(reads[0], bytes) else reads[0]
+                        if line.strip() != "yep!":
+                            Harness.current.stale_probes.append({"line": line[:120], "last": dict(getattr(tr, "vt_last", None) or {}),
+                                                                 "tail": [[k, (p if isinstance(p, str) else p.decode("utf-8", "replace"))[:80]]
+                                                                          for _, _, k, p in tr.events[max(0, mark - 6):] if k != "RE"]})
+                return res
+
+            processor.EbuildProcessor.is_responsive = property(probed)
+            processor.EbuildProcessor._vt_probe_wrapped = True
+        Harness.current = self
         self.pkgs = {}
         from pkgcore.ebuild.cpv import VersionedCPV
         for cpv in EBUILDS:
@@ -342,6 +369,21 @@ def session(ctx, h, actions=None):
         if sigdesc:
             interesting = True
             ctx.count("signals_sent:" + sigdesc[0])
+        # liveness probes that read some other line (anywhere: our own 'alive' actions and pkgcore's internal ones)
+        for sp in h.stale_probes:
+            last = sp["last"]
+            oc = last.get("outcome", "")
+            ending = oc.startswith("raised:") and oc != "raised:ProcessorError"
+            if oc == "raised:UnhandledCommand" and (last.get("action") or [None, None, None])[2:3] != ["unknown-cmd"]:
+                ending = False
+            ctx.evaluated()
+            if last and not last.get("hard_signal") and not ending:
+                ctx.violation("liveness-probe-answered-by-another-reply",
+                              dict(wit, read_instead_of_yep=sp["line"], previous=last, trace_tail=sp["tail"],
+                                   rule=(last.get("action") or ["?"])[0] + ":" + oc))
+            else:
+                ctx.count("stale_probe_after_session_ending_event")
+        del h.stale_probes[:]
         # whatever happened: the processor handed out next must be in sync
         if outcome == "raised:KeyboardInterrupt":
             ctx.count("keyboard_interrupts_seen")
